@@ -57,13 +57,13 @@ fn pick_s<'a>(rng: &mut Rng, xs: &[&'a str]) -> &'a str {
 }
 
 fn long_filler(rng: &mut Rng, bytes: usize) -> String {
-  let unit = *rng.pick(&["x", "é", "中", "𝒳", "ab "]);
+  let unit = *rng.pick(&["x", "é", "中", "𝒳", "ab ", "ก", "\u{800}", "\u{7FF}", "\u{FFFD}", "\u{10000}"]);
   unit.repeat(bytes / unit.len() + 1)
 }
 
 /// one statement of the language; `nl` is the line terminator of this file
 fn gen_stmt(rng: &mut Rng, lang: &LangSpec, nl: &str, long: Option<usize>) -> String {
-  let js_args = ["1", "\"é\"", "'𝒳𝒳'", "a + b", "foo(2)", "x", "\"\"", "变量", "`t𝒳`"];
+  let js_args = ["1", "\"é\"", "'𝒳𝒳'", "a + b", "foo(2)", "x", "\"\"", "变量", "`t𝒳`", "'ก'", "\"\u{800}\u{7FF}\"", "'\u{FFF}\u{1000}'"];
   let ids = ["x", "é", "变量", "_a1", "yy"];
   if let Some(n) = long {
     let fill = long_filler(rng, n);
